@@ -631,7 +631,53 @@ func opbText(r *world.Rng, n int, cs []ref.Con, cost *ref.Cost) string {
 	return s
 }
 
+// covering: weighted set-cover style optimisation - every variable costs something, every
+// constraint asks for some of a few variables: many improvement steps, cost literals that get fixed
+// at top level between two steps.
+func covering(r *world.Rng, maxN int) (int, []ref.Con, *ref.Cost) {
+	n := r.Range(5, maxN)
+	m := r.Range(n/2+1, n+3)
+	var cs []ref.Con
+	for i := 0; i < m; i++ {
+		k := r.Range(2, min(n, 4))
+		l := distinctLits(r, n, k)
+		for j := range l {
+			if l[j] < 0 && r.Bool(0.85) {
+				l[j] = -l[j]
+			}
+		}
+		c := ref.Con{Lits: l, K: 1}
+		if r.Bool(0.25) && k >= 3 {
+			c.K = 2
+		}
+		cs = append(cs, c)
+	}
+	cs = append(cs, ref.Con{Lits: []int{n, r.Range(1, n-1)}, K: 1}) // every variable the cost mentions must exist in the problem
+	cost := &ref.Cost{Lits: make([]int, n), Coefs: make([]int, n)}
+	for v := 1; v <= n; v++ {
+		cost.Lits[v-1] = v
+		cost.Coefs[v-1] = r.Range(1, 12)
+	}
+	return n, cs, cost
+}
+
 func genC03(r *world.Rng, w *world.World, big bool) {
+	if r.Bool(0.25) {
+		n, cs, cost := covering(r, 10)
+		route := r.PickS("pb", "card", "opb")
+		for i := range cs {
+			cs[i].Op = ">="
+		}
+		t := world.TaskSpec{Kind: "opt", N: n, Cons: cs, Cost: cost, Route: route, Entry: "all", Cap: capacity(r), Delays: delays(r)}
+		if route == "opb" {
+			t.Text = opbText(r, n, cs, cost)
+			t.Chunks = chunks(r)
+		}
+		w.Tasks = []world.TaskSpec{t}
+		knobs(r, w)
+		schedMulti(r, w)
+		return
+	}
 	route := r.PickS("pb", "pb", "card", "opb", "opb", "cnf")
 	forms := []string{"clause", "card", "pb"}
 	switch route {
@@ -999,7 +1045,14 @@ func genC20(r *world.Rng, w *world.World, big bool) {
 			cs = append(cs, topVarClause(r, n))
 		}
 		t = world.TaskSpec{Kind: "opt", N: n, Cons: cs, Route: route, Entry: "optimal-chan"}
-		if !r.Bool(0.1) {
+		if r.Bool(0.35) {
+			cn, ccs, ccost := covering(r, 10)
+			for i := range ccs {
+				ccs[i].Op = ">="
+			}
+			t.N, t.Cons, t.Cost = cn, ccs, ccost
+			n, cs = cn, ccs
+		} else if !r.Bool(0.1) {
 			// long streams: many cost levels
 			t.Cost = &ref.Cost{Lits: distinctLits(r, n, n), Coefs: make([]int, n)}
 			for i := range t.Cost.Coefs {
